@@ -21,6 +21,10 @@ class Class(Expression):
         self.is_ignored = is_ignored
         self.extra_id = None
 
+        # (The name of a member is visible to the members that follow it.)
+        for member in self.members:
+            member.is_class_member = True
+
     def __str__(self):
         params = '' if self.params is None else f'({", ".join(self.params)})'
         lines = []
